@@ -2,7 +2,7 @@ CONSTANTS
   MaxChars = 3
   Classes = {1, 2, 3, 4}
   Widths <- WidthsQ
-  Accepts = {1, 2, 5}
+  Accepts = {0, 1, 2, 5}
   ScriptLen = 2
 INIT Init
 NEXT Next
